@@ -379,6 +379,8 @@ class C10(Property):
             init = {"route": route, "value": G.gen_value(rng, schema, valid=not hostile)}
             if route in ("from_flat", "set_flat"):
                 init["pairs"] = G.gen_flat_pairs(rng, schema)
+            elif rng.random() < 0.04 and "d" in (init["value"] or {}) if isinstance(init["value"], dict) else False:
+                init["route"] = "from_object"          # Dict.from_object(obj): oracle only
             nops = rng.choice([1, 2, 3, 4, 6, 8, 10, 14])
             flat = route in ("from_flat", "set_flat") or rng.random() < 0.05
             ops = [_op(G.gen_map_op(rng, schema, valid=not hostile, flat=flat)) for _ in range(nops)]
